@@ -20,6 +20,23 @@ Proof.
   rewrite Ho. apply outcome_map_slog.
 Qed.
 
+(* a parallel map over items of any type *)
+Lemma outcome_fn_slog : forall (X : Type) (g : X -> option Z) (xs : list X) i,
+  outcome (slog (fun (_ : nat) x => to_res (g x)) i (map (@ROk X) xs)) = mapM g xs.
+Proof.
+  intros X g xs. induction xs as [|x xs IH]; intro i; [reflexivity|].
+  unfold slog. cbn [map length seq combine]. fold (slog (fun (_ : nat) x => to_res (g x)) (S i) (map (@ROk X) xs)).
+  cbn [work snd fst mapM]. destruct (g x) as [y|]; cbn [to_res outcome bind]; [|reflexivity].
+  rewrite IH. destruct (mapM g xs); reflexivity.
+Qed.
+
+Lemma par_fn_with_seq : forall (X : Type) pp (g : X -> option Z) xs, 1 <= pp_nw pp -> par_fn_with pp g xs = mapM g xs.
+Proof.
+  intros X pp g xs Hnw. unfold par_fn_with.
+  destruct (map_auto_delivered (fun (_ : nat) x => to_res (g x)) (pp_k pp) (pp_decide pp) (pp_nw pp) (pp_sched pp) (map (@ROk X) xs) Hnw) as (Ho & _).
+  rewrite Ho. apply outcome_fn_slog.
+Qed.
+
 Lemma outcome_seq_filter : forall p l,
   outcome (seq_filter (fun x => to_res (accept_fn p x)) (map (@ROk Z) l)) = filterM (accept_fn p) l.
 Proof.
@@ -47,6 +64,8 @@ Proof.
   intros asg Hok k p o l. destruct k; try reflexivity; cbn [stage_par_with stage_seq].
   - apply par_map_with_seq, Hok.
   - apply par_accept_with_seq, Hok.
+  - destruct (esc_items e p o l); [|reflexivity]. cbn [bind]. apply par_fn_with_seq, Hok.
+  - apply par_fn_with_seq, Hok.
 Qed.
 
 (* induction over stages with their nested operand pipelines *)
